@@ -173,7 +173,9 @@ func c10EncTree(t *syntax.RegexTree, types map[int]bool) []int64 {
 	for _, k := range caps {
 		out = append(out, int64(k))
 	}
-	return append(out, int64(t.Captop))
+	// the two per-tree checks of the driver (group numbers inside the capture table, direction changes only at
+	// lookarounds) must hold
+	return append(out, int64(t.Captop), 1, 1)
 }
 
 // ---- oracles ----
@@ -470,7 +472,7 @@ var c10Corpus = []string{
 	`(a)(b)(c)(d)(e)(f)(g)(h)(i)(j)\10\11`, `(a)\18`, `(a)\81`,
 	// bracket classes
 	`[a]`, `[ab]`, `[a-c]`, `[^a]`, `[^ab]`, `[a-cx-z0]`, `[\d]`, `[\w-]`, `[\s\S]`, `[^\d\w]`, `[\x41-\x{43}]`, `[\n\t]`, `[\cA-\cC]`, `[\]a]`, `[]a]`, `[^]a]`, `[a-]`, `[-a]`, `[a\-z]`, `[--/]`, `[a-z-[aeiou]]`, `[a-z-[m-p-[n]]]`,
-	`[\w-[\d]]`, `[a-[b]]`, `[a-c-[b]d]`, `[a-[b]`, `[z-a]`, `[a-\d]`, `[\d-a]`, `[a`, `[`, `[^`, `[a-`, `[\`, `[\q]`, `[\x4]`, `[\p{L}]`, `[\P{Lu}\d]`, `[\pL]`, `[\p{Foo}]`, `[\p{L]`, `[\p]`, `[a-\p{L}]`, `[[:alpha:]]`, `[[:^digit:]x]`,
+	`[\w-[\d]]`, `[a-[b]]`, `[a-c-[b]d]`, `[a-[b]d]`, `[a-[b]c-d]`, `[a-[b]`, `[z-a]`, `[a-\d]`, `[\d-a]`, `[a`, `[`, `[^`, `[a-`, `[\`, `[\q]`, `[\x4]`, `[\p{L}]`, `[\P{Lu}\d]`, `[\pL]`, `[\p{Foo}]`, `[\p{L]`, `[\p]`, `[a-\p{L}]`, `[[:alpha:]]`, `[[:^digit:]x]`,
 	`[[:foo:]]`, `[[:alpha:]`, `[[:alpha:x]`, `[[a]]`, `[a[:b]`, `[\x00-\x60b-\x{10FFFF}]`, `[\x00-\x{10FFFF}]`, `[\x01-\x{10FFFF}]`, `[\x00-\x{10FFFE}]`, `[\x00-a-[a]]`, `[a][a]`, `[ab][ab][ab]`, `[ab][ab]*`, `[ab]*[ab]`, `[ab]+[ab]*`, `[ab]{2}[ab]{3,}`,
 	`[^a][^a]`, `[^a]*[^a]`, `.*.`, `..`, `\d\d`, `\d\d+`, `\d+\d`, `aa*`, `a*a`, `a+a+`, `a*aab`, `a*ab`, `a+b`, `a?aa`, `a{2}a`, `aa{2}`, `a*?a`, `a+?ab`, `(?i)k`, `(?i)ab`, `(?i)a1`, `(?i)12`, `(?i)[k]`, `(?i)σ`, `(?i)\p{Lu}`, `(?i)[\p{Ll}x]`,
 	`\p{L}`, `\P{L}`, `\pL`, `\pZ`, `\p{Greek}`, `\p{IsGreek}`, `\p{Foo}`, `\p{`, `\p{L`, `\p`, `\pX`, `\P`, `\p{Lu}\p{Lu}`, `\p{Lowercase_Letter}`,
@@ -504,7 +506,7 @@ type c10Case struct {
 }
 
 func legC10Parse(c *Ctx) {
-	c.Rule("model parse (coq/Model/Parser.v: countCaptures, scanRegex with scanGroupOpen / scanCharSet / scanBackslash / quantifiers, and the mandatory reducers of tree.go) vs syntax.Parse with the optional rewrite families gated off (mask 31): PR_Err <=> parse error of the same code, PR_Tree => exact tree (T, Options, Ch, M, N, Str, CharSet fields, children) and capture table, PR_Outside counted. Inputs: a fixed corpus of one pattern per construct / error kind, patterns printed from random ASTs (full generator syntax), every harvested test pattern, byte-level mutants of all of these (truncation, deletion, insertion of metacharacters and group openers, byte replacement), each under option sets drawn from 20 combinations of {IgnoreCase, Multiline, ExplicitCapture, Singleline, IgnorePatternWhitespace, RightToLeft, ECMAScript, RE2, Unicode} and MaintainCaptureOrder; non-trivial = compared (inside the fragment) and not a plain literal (distinct by pattern, options)")
+	c.Rule("model parse (coq/Model/Parser.v: countCaptures, scanRegex with scanGroupOpen / scanCharSet / scanBackslash / quantifiers, and the mandatory reducers of tree.go) vs syntax.Parse with the optional rewrite families gated off (mask 31): PR_Err <=> parse error of the same code, PR_Tree => exact tree (T, Options, Ch, M, N, Str, CharSet fields, children) and capture table, and on that tree the driver's two checks hold (every group number of a Capture / Ref / BackRefCond node is a key of the capture table; the RightToLeft bit changes only at lookaround nodes), PR_Outside counted. Inputs: a fixed corpus of one pattern per construct / error kind, patterns printed from random ASTs (full generator syntax), every harvested test pattern, byte-level mutants of all of these (truncation, deletion, insertion of metacharacters and group openers, byte replacement), each under option sets drawn from 20 combinations of {IgnoreCase, Multiline, ExplicitCapture, Singleline, IgnorePatternWhitespace, RightToLeft, ECMAScript, RE2, Unicode} and MaintainCaptureOrder; non-trivial = compared (inside the fragment) and not a plain literal (distinct by pattern, options)")
 	var cases []c10Case
 	for k, p := range c10Corpus {
 		// every pattern under the six basic option sets, three of the other eleven in rotation, and MaintainCaptureOrder
